@@ -96,6 +96,17 @@ CLAIMED['C04'] = dict(
          '(fix: commits).'),
    note=SVC_NOTE + ' Scheduling points are datastore primitive calls and servicer-lock acquisitions; interleavings inside a datastore primitive, inside SQLite/gRPC and the GIL are not explored; at most 3 threads in the exploration (the theorems are unbounded).',
    technique='Rocq proof (invariant over all interleavings; lock-order argument) + deterministic-scheduler exploration against serial orders', design='5/C04')
+CLAIMED['C08'] = dict(
+   text=('All three deployments run the same servicer code (one model); they differ in how a server-side error reaches the client. '
+         'TRANSLATOR: coq/Gen/StatusMap.v is regenerated from grpc_util.handle_exception (exception -> status table, termination of the RPC '
+         'for local and real contexts) and vizier_client.get_suggestions (status mapped to []). Theorems: handle_exception terminates the RPC in '
+         'both deployments; errors routed through it carry the same status everywhere; a finished study yields the promised empty suggestion '
+         'list in every deployment; a missing trial yields ResourceNotFoundError locally. The full agreement statement is REFUTED '
+         '(C08_errors_agree_refuted, C08_missing_trial_remote_refuted) = known finding C08-escaping-exception-unknown. Tie/search: client '
+         'programs over clients.Study/Trial replayed against the in-process servicer, a loopback gRPC server and a split-Pythia server on both '
+         'datastores; values and error classes compared pairwise, observed error pairs checked against the transport model in coqc.'),
+   note=BASE_TB + ' Loopback gRPC; transport faults, TLS and message-size limits are not covered. The servicer model itself is tied under C01.',
+   technique='Rocq proof over a translator-generated status table + three-deployment differential replay', design='5/C08')
 ALL = ['C%02d' % i for i in range(1, 21)]
 m = {
  'version': 1,
